@@ -5,7 +5,10 @@ import BnpVerif.Base.PyIdx
 column table. The item getter's buffer is abstracted to the list of file rows it denotes (C04 proves
 that selection / concatenation on the extractor is list indexing / append on that list); a file cell
 carries its original text and its parsed value (values are represented by their canonical spelling,
-so formatting a value is the identity). Core-only imports. -/
+so formatting a value is the identity). BY CONSTRUCTION the lazy and the eager table parse a cell to the same value
+(`Cell.val`, read by `fileCol` on both sides): that the two readers run the same per-field parser on the same text is
+C02's subject and the implementation-vs-implementation half of the harness, not a theorem here. What IS proved is that
+the lazy table's three stores, caches and in-place updates never show anything else than the eager columns. Core-only imports. -/
 namespace C05
 open PyIdx
 
@@ -233,7 +236,7 @@ def stepLazy (k : Cfg) (op : Op) (rs : List Lazy) : Obs × List Lazy :=
     | some l => (.num l.len, rs)
     | none => (.err, rs)
   | .get a f => match rs[a]? with
-    | some l => let g := l.get f; (.col g.1, rs.set a g.2)
+    | some l => if f < k.nF then (let g := l.get f; (.col g.1, rs.set a g.2)) else (.err, rs)   -- no such field: AttributeError
     | none => (.err, rs)
   | .index a d ix => match rs[a]? with
     | some l => match l.index ix with
@@ -277,7 +280,7 @@ def stepEager (k : Cfg) (op : Op) (rs : List Eager) : Obs × List Eager :=
     | some e => (.num e.len, rs)
     | none => (.err, rs)
   | .get a f => match rs[a]? with
-    | some e => (.col (e.get f), rs)
+    | some e => if f < k.nF then (.col (e.get f), rs) else (.err, rs)
     | none => (.err, rs)
   | .index a d ix => match rs[a]? with
     | some e => match e.index ix with
@@ -307,6 +310,24 @@ def stepEager (k : Cfg) (op : Op) (rs : List Eager) : Obs × List Eager :=
     | some e => if !k.eagerWrite then (.err, rs) else (.bytes (e.write k.join), rs)
     | none => (.err, rs)
 
+/-- the arguments of an operation fit the table it is applied to: replacement columns have one value per row (a caller
+error otherwise - on which the real lazy and eager tables do NOT agree: the lazy table accepts an ill-sized column and fails
+later, the eager `replace` raises at once) -/
+def opOKb (op : Op) (ls : List Lazy) : Bool :=
+  match op with
+  | .replace a _ kw => match ls[a]? with
+    | some l => kw.all (fun p => p.2.length == l.buf.length)
+    | none => true
+  | .setattr a _ c => match ls[a]? with
+    | some l => c.length == l.buf.length
+    | none => true
+  | _ => true
+
+/-- the domain of the equivalence theorems, checked along the run (the driver evaluates it on every request) -/
+def runOKb (k : Cfg) : List Op → List Lazy → Bool
+  | [], _ => true
+  | op :: ops, ls => opOKb op ls && runOKb k ops (stepLazy k op ls).2
+
 def runLazy (k : Cfg) : List Op → List Lazy → List Obs
   | [], _ => []
   | op :: ops, rs => let s := stepLazy k op rs; s.1 :: runLazy k ops s.2
@@ -318,6 +339,22 @@ def runEager (k : Cfg) : List Op → List Eager → List Obs
 end C05
 
 namespace C05
+/-! the writers' per-record layouts the driver instantiates `Cfg.join` with (every theorem is parametric in `join`) -/
+def joinTab (fields : List Bytes) : Bytes :=
+  (match fields with
+   | [] => []
+   | f :: r => r.foldl (fun acc x => acc ++ [9] ++ x) f) ++ [10]
+
+/-- `OneLineBuffer.join_fields` / `FastQBuffer.join_fields` on one entry -/
+def joinFastq (fields : List Bytes) : Bytes :=
+  match fields with
+  | [n, s, q] => [64] ++ n ++ [10] ++ s ++ [10] ++ [43, 10] ++ q ++ [10]
+  | _ => []
+def joinFasta (fields : List Bytes) : Bytes :=
+  match fields with
+  | [n, s] => [62] ++ n ++ [10] ++ s ++ [10]
+  | _ => []
+
 /-- which rules the current tree uses (false = shipped, true = repaired) -/
 def concatFixed : Bool := true
 def setattrFixed : Bool := true
